@@ -212,7 +212,7 @@ class Proc:
 
 
 def harness(as_nobody=False):
-    if as_nobody:
+    if as_nobody and os.geteuid() == 0:
         return Proc(["setpriv", "--reuid=65534", "--regid=65534", "--clear-groups", HARNESS])
     return Proc([HARNESS])
 
